@@ -119,6 +119,9 @@ def const_value(node: ast.AST) -> Any:
         return tuple(const_value(e) for e in node.elts)
     if isinstance(node, ast.List):
         return [const_value(e) for e in node.elts]
+    if isinstance(node, ast.Dict):
+        return {const_value(k): const_value(v)
+                for k, v in zip(node.keys, node.values) if k is not None}
     if isinstance(node, ast.UnaryOp) and isinstance(node.op, ast.USub):
         return -const_value(node.operand)
     if isinstance(node, ast.BinOp):
